@@ -83,7 +83,17 @@ Check == idx > 0 =>
                 ELSE IF ~Integral(d) THEN {Err("invalid-value")} ELSE Admissible(can[i], Doc)
       cases == { [expr |-> Render(big[i]), adm |-> adm(i)] : i \in 1..Len(big) }
       case == [p |-> Prop, kind |-> "search", doc |-> Doc, multi |-> cases]
+      \* the same argument as a DOCUMENT number at and around the 64-bit limits, in every Go carrier that
+      \* holds it exactly: the value is beyond the small-number model (Open) but "integer-argument coercion
+      \* treats all of them alike" (C14) -- the harness requires one outcome across the carrier sets
+      Limits == <<"9223372036854775808", "-9223372036854775808", "9223372036854775807", "4611686018427387904", "18446744073709551615",
+                  "18446744073709551616", "-9223372036854775809", "9007199254740992", "1267650600228229401496703205376">>
+      byDoc(w) == [p |-> Prop, kind |-> "search", doc |-> [t |-> "obj", o |-> <<[k |-> <<110>>, v |-> [t |-> "num", big |-> w]]>>],
+                   carriersets |-> << <<"json">>, <<"float64">>, <<"float32">>, <<"uint64">>, <<"int64">>, <<"decimal">>, <<"jsonexp">>, <<"uint">>, <<"int">> >>,
+                   \* (not the pad widths: a pad of 2^62 characters is a result of that size)
+                   multi |-> { [expr |-> Render(Templates(Id(<<110>>))[i]), adm |-> {Open}] : i \in 3..Len(big) }]
   IN /\ Emit => PrintT("CASE " \o ToJson(case))
+     /\ (Emit /\ bucket <= Len(Limits)) => PrintT("CASE " \o ToJson(byDoc(Limits[bucket])))
      \* sanity of the numeral parser on spellings of 3
      /\ Named(ParseDec(<<51,48,101,45,49>>) = ParseDec(<<51>>) /\ ParseDec(<<48,46,51,101,49>>) = ParseDec(<<51,46,48,48,48>>) /\ ~Integral(ParseDec(<<51,46,48,48,48,48,48,48,48,48,48,48,48,48,48,48,48,49>>)), "ParseDec")
 =============================================================================
